@@ -406,20 +406,23 @@ class Real:
         for ns in nss[1:]:
             self.conn.add_namespace(ns)
         self.violations = []
+        self.last = None        # full dump after the previous call, if that call raised and changed nothing
 
     def step(self, op, check=True):
         """returns (outcome json, violation or None)"""
-        before = full_dump(self.conn) if check else None
+        before = self.last if self.last is not None else full_dump(self.conn)
+        self.last = None
         try:
             real_op(self.conn, op)
             return None, None
         except Exception as e:  # noqa
             exc = common.exc_json(e)
             viol = None
-            if check:
-                after = full_dump(self.conn)
-                if after != before:
-                    viol = (op_sig(op, exc), dump_diff(before, after))
+            after = full_dump(self.conn)
+            if after != before:
+                viol = (op_sig(op, exc), dump_diff(before, after))
+            else:
+                self.last = after
             return exc, viol
 
 
@@ -544,7 +547,8 @@ class Gen:
         props = []
         for p in c['props']:
             if p['ty'] == 'reference':
-                r = self.ref_to(st, p['ref'], n['name'], other_ns=bool(cross) and p['name'] == 'right')
+                r = self.ref_to(st, p['ref'], n['name'],
+                                other_ns=bool(cross) and (p['name'] == 'right' or (p['name'] == 'third' and self.rng.random() < 0.5)))
                 if r is None:
                     r = self.ref_to(st, p['ref'])
                 if r is None:
@@ -596,6 +600,12 @@ class Gen:
         classes.append(cdef(self.fresh('TM_'), None, [ASSOCQ],
                             [pdef('id', 'string', quals=[KEYQ]), pdef('left', 'reference', ref=a['name']),
                              pdef('right', 'reference', ref=b['name'])]))
+        if rng.random() < 0.6:
+            c3 = rng.choice(roots)
+            classes.append(cdef(self.fresh('TT_'), None, [ASSOCQ],
+                                [pdef('left', 'reference', ref=a['name'], quals=[KEYQ]),
+                                 pdef('right', 'reference', ref=b['name'], quals=[KEYQ]),
+                                 pdef('third', 'reference', ref=c3['name'], quals=[KEYQ])]))
         if rng.random() < 0.5:
             classes.append(cdef(self.fresh('TE_'), None, [],
                                 [pdef('k', 'string', quals=[KEYQ]),
@@ -790,6 +800,12 @@ class Gen:
             x = {'props': i['props']}
             if not self.other_nss(n, x):
                 continue
+            both = False
+            if rng.random() < 0.3:
+                # the last reference names a namespace that does not exist (only add_cimobjects accepts that);
+                # half of the time the instance is then stored in the other referenced namespaces as well
+                [p for p in i['props'] if p['ty'] == 'reference'][-1]['val']['ref']['ns'] = 'root/zz'
+                both = rng.random() < 0.6
             keys = []
             for kp in self.keyprops(c):
                 v = [p['val'] for p in i['props'] if p['name'].lower() == kp['name'].lower()]
@@ -797,9 +813,17 @@ class Gen:
                     break
                 keys.append([kp['name'], v[0]])
             else:
-                return {'op': 'addObject', 'ns': n['name'],
+                ops = [{'op': 'addObject', 'ns': n['name'],
                         'obj': {'k': 'inst', 'path': {'cls': c['name'], 'ns': n['name'], 'keys': keys}, 'inst': i},
-                        'reason': 'ok_onesided_assoc'}
+                        'reason': 'ok_onesided_assoc'}]
+                if both:
+                    for o in self.other_nss(n, {'props': i['props']}):
+                        on = self.find_ns(st, o)
+                        if on is not None and self.find_class(on, c['name']):
+                            ops.append({'op': 'addObject', 'ns': on['name'],
+                                        'obj': {'k': 'inst', 'path': {'cls': c['name'], 'ns': on['name'], 'keys': keys},
+                                                'inst': i}, 'reason': 'ok_onesided_assoc'})
+                return ops if len(ops) > 1 else ops[0]
         return None
 
     def g_createClass(self, st):
@@ -1442,7 +1466,7 @@ def model_op(op):
     return {k: v for k, v in op.items() if k not in ('reason', 'fail_pos', 'via', 'keep_cache')}
 
 
-def run_history(seed, thorough, nops):
+def run_history(seed, thorough, nops, keep_cache=False):
     """generate and execute one history on the real code -> dict(nss, ops, outs, states, violations)"""
     rng = random.Random(seed)
     g = Gen(rng, thorough)
@@ -1451,6 +1475,8 @@ def run_history(seed, thorough, nops):
     ops, outs, states, viols = [], [], [], []
 
     def do(op):
+        if keep_cache and op['op'] == 'compileMof':
+            op['keep_cache'] = True
         exc, viol = real.step(op)
         ops.append(op)
         outs.append(exc)
@@ -1470,8 +1496,8 @@ def run_history(seed, thorough, nops):
                     do({'op': 'createInstance', 'ns': n['name'], 'inst': g.inst_for(n, c), 'reason': 'ok'})
     for _ in range(rng.choice([3, 5, 7])):
         op = g.g_assoc(states[-1], rng.choice(['create_cross', 'create_cross', 'create_same', 'onesided']))
-        if op is not None:
-            do(op)
+        for o in (op if isinstance(op, list) else [op] if op is not None else []):
+            do(o)
     for _ in range(nops):
         op = g.next_assoc_op(states[-1]) if rng.random() < 0.25 else g.next_op(states[-1])
         if op is None:
@@ -1494,9 +1520,9 @@ def replay_history(nss, ops):
 
 
 def _work(item):
-    seed, thorough, nops = item
+    seed, thorough, nops = item[:3]
     try:
-        return run_history(seed, thorough, nops)
+        return run_history(seed, thorough, nops, keep_cache=(len(item) > 3 and item[3]))
     except Exception as e:  # noqa - generator/harness problem: report, never hide
         import traceback
         return {'crash': traceback.format_exc()[-1500:], 'seed': seed}
@@ -1590,6 +1616,23 @@ def nsprovider_probes(run):
                     interop_first=interop_first)
             attempt(conn2, 'remove_namespace', lambda: conn2.remove_namespace('interop'), reason='interop',
                     interop_first=interop_first)
+        # a MOF compile that CREATES a namespace (#pragma namespace on a full mock WBEM server) and then fails:
+        # the namespace and its CIM_Namespace instance must be gone again
+        import contextlib
+        import io
+        with contextlib.redirect_stdout(io.StringIO()):          # the test utilities print a banner on import
+            from tests.unittest.utils.wbemserver_mock import WbemServerMock
+            server = WbemServerMock(interop_ns='interop')
+        conn3 = server.wbem_server.conn
+        for k, tail in enumerate(['class X2 : Nope { string b; };', 'class X3 { string ; };',
+                                  'instance of NoSuchClass { a = "x"; };']):
+            mof = ('#pragma namespace ("root/newns%d")\nQualifier Foo : boolean = false, Scope(any);\n'
+                   'class X1 { string a; };\n' % k) + tail
+            attempt(conn3, 'compile_mof_string', lambda m=mof: conn3.compile_mof_string(m, namespace='interop'),
+                    reason='pragma_namespace_then_failure', variant=k)
+        attempt(conn3, 'compile_mof_string', lambda: conn3.compile_mof_string(
+            '#pragma namespace ("root/newns9")\nQualifier Foo : boolean = false, Scope(any);\nclass X1 { string a; };',
+            namespace='interop'), reason='pragma_namespace_ok')
     finally:
         os.chdir(cwd)
 
@@ -1665,15 +1708,30 @@ def search(run):
     _register_module()
     before = len(run.violations)
     rng = run.rng
-    items = [(rng.randrange(1 << 30), True, 60) for _ in range(200)]
+    items = [(rng.randrange(1 << 30), True, 60, i % 2 == 0) for i in range(160)]
     for r in common.pmap(_work, items, procs=4, chunksize=2):
         if 'crash' in r:
             continue
         for v in r['viols']:
             run.violate(v['sig'], {'nss': r['nss'], 'ops': r['ops'][:v['index'] + 1]}, v['diff'])
-        if len(run.violations) > before:
-            break
+    if len(run.violations) == before:
+        nsprovider_probes(run)
     return run.violations[before:]
+
+
+def oracle_only(run):
+    """the Lean side did not build: still evaluate the property oracle on the real code"""
+    _register_module()
+    rng = run.rng
+    items = [(rng.randrange(1 << 30), run.thorough, 45) for _ in range(36)]
+    for r in common.pmap(_work, items, procs=4, chunksize=2):
+        if 'crash' in r:
+            continue
+        for op in r['ops']:
+            run.case({'nss': r['nss'], 'op': op}, nontrivial=False)
+        for v in r['viols']:
+            run.violate(v['sig'], {'nss': r['nss'], 'ops': r['ops'][:v['index'] + 1]}, v['diff'])
+    nsprovider_probes(run)
 
 
 def replay(payload):
